@@ -99,6 +99,9 @@ func (self Program) String() string {
 	}
 
 	functions := make([]string, 0)
+	for _, impl := range self.ImplBlocks {
+		functions = append(functions, impl.String())
+	}
 	for _, fn := range self.Functions {
 		functions = append(functions, fn.String())
 	}
